@@ -425,8 +425,15 @@ func (m *Manager) FlushMemTables() error {
 	// Track operation
 	m.stats.TrackOperation(stats.OpFlush)
 
+	// Take the queued immutable MemTables. The queue is appended to by
+	// scheduleFlush under m.mu, so it is read and emptied under m.mu as well
+	m.mu.Lock()
+	immutables := m.immutableMTs
+	m.immutableMTs = nil
+	m.mu.Unlock()
+
 	// If no immutable MemTables, flush the active one if needed
-	if len(m.immutableMTs) == 0 {
+	if len(immutables) == 0 {
 		tables := m.memTablePool.GetMemTables()
 		if len(tables) > 0 && tables[0].ApproximateSize() > 0 {
 			// In testing, we might want to force flush the active table too
@@ -447,22 +454,29 @@ func (m *Manager) FlushMemTables() error {
 		return nil
 	}
 
+	// requeue puts MemTables that could not be flushed back at the head of
+	// the queue for the next attempt
+	requeue := func(tables []*memtable.MemTable) {
+		m.mu.Lock()
+		m.immutableMTs = append(tables, m.immutableMTs...)
+		m.mu.Unlock()
+	}
+
 	// Create a new WAL file for future writes
 	if err := m.rotateWAL(); err != nil {
+		requeue(immutables)
 		m.stats.TrackError("wal_rotate_error")
 		return fmt.Errorf("failed to rotate WAL: %w", err)
 	}
 
 	// Flush each immutable MemTable
-	for i, imMem := range m.immutableMTs {
+	for i, imMem := range immutables {
 		if err := m.flushMemTable(imMem); err != nil {
+			requeue(immutables[i:])
 			m.stats.TrackError("memtable_flush_error")
 			return fmt.Errorf("failed to flush MemTable %d: %w", i, err)
 		}
 	}
-
-	// Clear the immutable list - the MemTablePool manages reuse
-	m.immutableMTs = m.immutableMTs[:0]
 
 	// Track flush count
 	m.stats.TrackFlush()
